@@ -159,12 +159,21 @@ Proof.
   - rewrite thr_same. apply A.
   - rewrite thr_other by assumption. rewrite Hn in Hy. now apply (inv_noexc s Hinv).
 Qed.
-Lemma f_scope : core_pc (t_pc th') = true -> t_mex th' = false ->
-  forall x, x < s_n s' -> core_pc (t_pc (s_thr s' x)) = true /\ t_mex (s_thr s' x) = false.
+Lemma f_scope : core_pc (t_pc th') = true ->
+  forall x, x < s_n s' -> core_pc (t_pc (s_thr s' x)) = true.
 Proof.
-  intros A B x Hx. destruct (Nat.eq_dec x t) as [-> | Hne].
+  intros A x Hx. destruct (Nat.eq_dec x t) as [-> | Hne].
   - rewrite thr_same. auto.
   - rewrite thr_other by assumption. rewrite Hn in Hx. exact (inv_scope s Hinv x Hx).
+Qed.
+
+Lemma f_w_all : s_nextobj s <= s_nextobj s' ->
+  (forall o, In o (t_all th') \/ In o (t_items th') -> o < s_nextobj s') ->
+  forall x o, x < s_n s' -> In o (t_all (s_thr s' x)) \/ In o (t_items (s_thr s' x)) -> o < s_nextobj s'.
+Proof.
+  intros L A x o Hx. destruct (Nat.eq_dec x t) as [-> | Hne].
+  - rewrite thr_same. apply A.
+  - rewrite thr_other by assumption. rewrite Hn in Hx. intros H. pose proof (inv_w_all s Hinv x o Hx H). lia.
 Qed.
 
 (* ---- the write locks of the instances *)
@@ -251,7 +260,44 @@ Proof.
   - rewrite thr_other by assumption. apply A; try assumption. now apply (inv_cull s Hinv).
 Qed.
 
+Lemma f_iter :
+  (forall x, x < s_n s -> x <> t -> iter_ok (s_strong s) (s_weak s) (s_sver s) (s_wver s) (s_thr s x) ->
+     iter_ok (s_strong s') (s_weak s') (s_sver s') (s_wver s') (s_thr s x)) ->
+  iter_ok (s_strong s') (s_weak s') (s_sver s') (s_wver s') th' ->
+  forall x, x < s_n s' -> iter_ok (s_strong s') (s_weak s') (s_sver s') (s_wver s') (s_thr s' x).
+Proof.
+  intros A B x Hx. rewrite Hn in Hx. destruct (Nat.eq_dec x t) as [-> | Hne].
+  - now rewrite thr_same.
+  - rewrite thr_other by assumption. apply A; try assumption. now apply (inv_iter s Hinv).
+Qed.
+
+(* the strict form of disjointness, for a thread that holds the lock outside expireAll's copying *)
+Lemma disj_strict : forall k o, holds (t_pc (s_thr s t)) = true -> xwinpc (t_pc (s_thr s t)) = false ->
+  dget (s_strong s) k = Some o -> dget (s_weak s) k = None.
+Proof.
+  intros k o Hh Hw H. destruct (inv_disj s Hinv k o H) as [A | (_ & x & Hx & Wx)]; [assumption |].
+  exfalso. assert (Hxh : holds (t_pc (s_thr s x)) = true) by (destruct (t_pc (s_thr s x)); simpl in *; try discriminate; reflexivity).
+  apply (inv_lock s Hinv x Hx) in Hxh. apply (inv_lock s Hinv t Ht) in Hh.
+  assert (x = t) by congruence. subst. congruence.
+Qed.
+
 End Fields.
+
+(* iter_ok is about lock holders inside the two loops only *)
+Definition iterpc (p : pc) : bool :=
+  match p with A252 | A253 | A254 | L279 | L280 | L280n | L281 => true | _ => false end.
+Lemma iter_ok_none : forall d w sv wv th, iterpc (t_pc th) = false -> iter_ok d w sv wv th.
+Proof.
+  intros d w sv wv th H. unfold iter_ok.
+  repeat split; intros X; try (rewrite X in H; discriminate).
+  destruct X as [X | [X | [X | X]]]; rewrite X in H; discriminate.
+Qed.
+Lemma iter_ok_unlocked : forall d w sv wv d' w' sv' wv' th,
+  holds (t_pc th) = false -> iter_ok d w sv wv th -> iter_ok d' w' sv' wv' th.
+Proof.
+  intros d w sv wv d' w' sv' wv' th Hh _. apply iter_ok_none.
+  destruct (t_pc th); simpl in *; try discriminate; reflexivity.
+Qed.
 
 (* cull_ok under changes it does not look at *)
 Lemma cull_ok_same : forall d w h h' th,
